@@ -3,7 +3,7 @@ C08 (outcome), C14 (reports)."""
 import random, json, collections, math, itertools, re
 import vlib
 from vlib import il, fl, streams, h2f, f2h
-from catalog import gen_ohlcv, REGIMES
+from catalog import gen_ohlcv, REGIMES, two_sorted
 from scatalog import SCAT, B, S, H
 from c_indicators import parse_ind, ind_line, load_findings, known_line
 
@@ -728,6 +728,70 @@ def tree_correspondence(res, cases, lines, go, model, prop):
     return mism
 
 
+DEFAULT_FS = {'Rsi': [30.0, 70.0], 'SuperTrend': [2.5]}
+
+
+def real_wrappers(res, rng, tier):
+    """The library's own wrapper types over real base strategies (And/Or/Majority/Split/Inverse/NoLoss/StopLoss, MACD-RSI with default
+    and custom periods and levels): the wrapper's actions must be the documented function of the action streams that its wrapped
+    strategies produce on the same snapshots (run separately) and of the closing prices.  Returns (cases, bad)."""
+    cases = []
+    reps = 3 if tier == 'quick' else 16
+    for wname in WRAPPED:
+        wrap, inner = wname.split(':')
+        parts = inner.split('+')
+        prog = ','.join('w:%d' % i for i in range(len(parts))) + ','
+        prog += {'And': 'And:%d' % len(parts), 'Or': 'Or:%d' % len(parts), 'Majority': 'Majority:%d' % len(parts), 'Split': 'Split',
+                 'Inverse': 'Inverse', 'NoLoss': 'NoLoss', 'StopLoss': 'StopLoss:' + f2h(0.1)}[wrap]
+        for _ in range(reps):
+            o, regime = gen_ohlcv(rng, rng.randrange(20, 100), rng.choice(['walk', 'wide', 'zigzag', 'down', 'dips', 'up', 'flatrun']))
+            cases.append((wname, [], [], [(q, DEFAULT_NS.get(q, []), DEFAULT_FS.get(q, [])) for q in parts], prog, o, regime))
+    # MACD-RSI: default, the registered (20, 80) variant, and custom MACD periods with narrow, wide and one-sided RSI levels —
+    # with wide levels the RSI strategy stays silent for long stretches while MACD already signals
+    for _ in range(6 * reps):
+        if rng.random() < 0.3:
+            ns, fs, mns, lv, n = [], [], [12, 26, 9], [30.0, 70.0], rng.randrange(45, 140)
+        else:
+            a, b = two_sorted(rng, 8)
+            mns = [a, b, rng.randrange(1, 6)]
+            lv = rng.choice([[20.0, 80.0], [5.0, 95.0], [0.0, 100.0], [45.0, 55.0], [50.0, 50.0], [1.0, 60.0], [40.0, 99.0], [2.0, 98.0], [10.0, 90.0], [0.0, 100.0]])
+            ns, fs, n = mns, lv, rng.randrange(25, 120)
+        o, regime = gen_ohlcv(rng, n, rng.choice(['walk', 'wide', 'zigzag', 'ties', 'dips', 'down', 'up', 'plateau']))
+        cases.append(('MacdRsi', ns, fs, [('Macd', mns, []), ('Rsi', [14], lv)], 'w:0,w:1,Agree', o, regime))
+    lines = []
+    for i, (wname, ns, fs, inner, prog, o, regime) in enumerate(cases):
+        lines.append('rw%d %s' % (i, strat_line(wname, ns, fs, o)))
+        for j, (q, qns, qfs) in enumerate(inner):
+            lines.append('rw%d_%d %s' % (i, j, strat_line(q, qns, qfs, o)))
+    go = vlib.run_go(lines)
+    bad = 0
+    pairs = collections.Counter()
+    for i, (wname, ns, fs, inner, prog, o, regime) in enumerate(cases):
+        g = parse_strat(go.get('rw%d' % i, 'missing'))
+        ws = [parse_strat(go.get('rw%d_%d' % (i, j), 'missing')) for j in range(len(inner))]
+        if g['status'] != 'ok' or any(w['status'] != 'ok' for w in ws):
+            bad += 1
+            res.violation({'wrapper': wname, 'config': {'ns': ns, 'fs': fs}, 'ohlcv': o, 'go_output': go.get('rw%d' % i, 'missing')[:200],
+                           'oracle': 'wrapper and wrapped strategies must terminate on the same snapshots'})
+            continue
+        words = [w['actions'] for w in ws]
+        want = py_eval(prog, words, o['c'])
+        if prog.endswith('Agree'):
+            da, db = py_denorm(words[0]), py_denorm(words[1])
+            for x, y in zip(da, db):
+                pairs[(x, y)] += 1
+        if g['actions'] != want:
+            bad += 1
+            k = next((k for k in range(min(len(want), len(g['actions']))) if want[k] != g['actions'][k]), min(len(want), len(g['actions'])))
+            res.violation({'wrapper': wname, 'config': {'ns': ns, 'fs': fs}, 'wrapped': [list(x) for x in inner], 'ohlcv': o, 'regime': regime,
+                           'first_difference': {'index': k, 'expected': want[k] if k < len(want) else None,
+                                                'go': g['actions'][k] if k < len(g['actions']) else None,
+                                                'wrapped_actions_there': [w[k] if k < len(w) else None for w in words]},
+                           'oracle': 'documented combination (py_eval %s) of the action streams the wrapped strategies give on the same snapshots' % prog})
+    res.coverage['macd_rsi_standing_pairs_seen'] = {'%d/%d' % k: v for k, v in sorted(pairs.items())}
+    return len(cases), bad
+
+
 def check_c07(res, tier, replay):
     rng = random.Random(vlib.seed() + 7)
     vlib.apply_obligations(res, 'C07')
@@ -761,6 +825,9 @@ def check_c07(res, tier, replay):
                                                 'go': g[0][j] if j < len(g[0]) else None, 'expected_len': len(want), 'go_len': len(g[0])},
                            'oracle': 'documented combination of the wrapped action streams (tools/c_strategies.py py_eval)'})
     if not replay:
+        rw_n, rw_bad = real_wrappers(res, rng, tier)
+        bad += rw_bad
+        res.coverage['real_wrapper_types_vs_own_inner_streams'] = rw_n
         # "functions of their wrapped strategies": the real wrapper types, with the wrapped strategies replaced after a first run
         from c_runtime import check_reconf
         rc_n, rc_bad = check_reconf(res, rng, tier, ('WRAPPED',), 'C07')
@@ -882,10 +949,22 @@ def check_c08(res, tier, replay):
     if not replay:
         # buy-and-hold through the library's own BuyAndHoldStrategy, on an instance that has been used before
         bh = []
-        for k in range(4 if tier == 'quick' else 20):
+        for k in range(10 if tier == 'quick' else 40):
             envs = []
             for t in range(2):
                 o, _ = gen_ohlcv(rng, rng.randrange(1, 40), rng.choice(['walk', 'wide', 'zigzag', 'down', 'up']))
+                # the benchmark is defined by the closings alone: the other columns may be absent (zero), e.g. an index without
+                # volume data, a synthetic series with only the close filled in, days without trades at the start of a listing
+                n_ = len(o['c'])
+                r_ = rng.random()
+                if r_ < 0.35:
+                    lead = rng.choice([n_, 1, 2, rng.randrange(1, n_ + 1)])
+                    o['v'] = [0.0 if i < lead else x for i, x in enumerate(o['v'])]
+                elif r_ < 0.5:
+                    for f_ in 'ohlv':
+                        o[f_] = [0.0] * n_
+                elif r_ < 0.6:
+                    o['v'] = [-x for x in o['v']]
                 envs.append([o[x] for x in 'ohlcv'])
             bh.append(envs)
         bl = ['b%d RECONF OUTCOME BuyAndHold %s %s BuyAndHold %s %s replace %s' % (k, il([]), fl([]), il([]), fl([]), '/'.join(streams(e) for e in envs))
